@@ -40,6 +40,7 @@ KINDS = {
     "sumabs": [["sum", 0.0, False]],
     "sumlin": [["sum", None, True]],
     "scale+lin": [["scale", 1.0], ["lin"]],
+    "stack": [["stack"]],
 }
 PAYLOADS = ["plain", "fixedmask", "flexmask", "flexmask0"]
 LIMITS = ["0", "b-1", "b", "1.5b", "2b", "3b"]
@@ -65,8 +66,12 @@ def _run(case, limit, loc, ctx):
 
     chain = KINDS[case["kind"]]
     pk = case["payload"]
-    if pk == "plain":
+    if pk == "plain" and case["kind"] != "stack":
         g = fm.NoGrid(1)
+        pmask = fm.Mask.FLEX
+    elif pk == "plain":
+        # StackTime delivers several time entries, which finam supports for gridded data only
+        g = fm.UniformGrid((N + 1,))
         pmask = fm.Mask.FLEX
     else:
         g = fm.UniformGrid((N + 1,))
@@ -231,10 +236,11 @@ def _mk_comp_classes():
     import finam as fm
 
     class Prod(fm.TimeComponent):
-        def __init__(self, step, pk, own_limit):
+        def __init__(self, step, pk, own_limit, gridded=False):
             super().__init__()
             self._time = hs.T0
             self.step, self.pk, self.own_limit, self.k = step, pk, own_limit, 0
+            self.gridded = gridded
 
         def _next_time(self):
             return self.time + timedelta(minutes=self.step)
@@ -248,8 +254,10 @@ def _mk_comp_classes():
             return _flex_payload(base, self.k, self.pk)
 
         def _initialize(self):
-            if self.pk == "plain":
+            if self.pk == "plain" and not self.gridded:
                 self.outputs.add(name="o", time=self.time, grid=fm.NoGrid(1), units="mm/d")
+            elif self.pk == "plain":
+                self.outputs.add(name="o", time=self.time, grid=fm.UniformGrid((N + 1,)), units="mm/d")
             else:
                 mask = (np.arange(N) % 3 == 1) if self.pk == "fixedmask" else fm.Mask.FLEX
                 self.outputs.add(name="o", time=self.time, grid=fm.UniformGrid((N + 1,)), units="mm/d", mask=mask)
@@ -272,16 +280,17 @@ def _mk_comp_classes():
             pass
 
     class Cons(fm.TimeComponent):
-        def __init__(self, step, pk, series):
+        def __init__(self, step, pk, series, gridded=False):
             super().__init__()
             self._time = hs.T0
             self.step, self.pk, self.series = step, pk, series
+            self.gridded = gridded
 
         def _next_time(self):
             return self.time + timedelta(minutes=self.step)
 
         def _initialize(self):
-            g = fm.NoGrid(1) if self.pk == "plain" else fm.UniformGrid((N + 1,))
+            g = fm.NoGrid(1) if (self.pk == "plain" and not self.gridded) else fm.UniformGrid((N + 1,))
             self.inputs.add(name="i", time=self.time, grid=g, units=None)
             self.create_connector(pull_data=["i"])
 
@@ -321,8 +330,9 @@ def _run_comp(case, limited, loc):
     lim = _limit(case["limit"]) if limited else None
     where = case["where"]  # composition | adapter | output
     series = []
-    prod = Prod(case["pstep"], case["payload"], lim if (limited and where == "output") else None)
-    cons = Cons(case["cstep"], case["payload"], series)
+    gridded = case["kind"] == "stack"
+    prod = Prod(case["pstep"], case["payload"], lim if (limited and where == "output") else None, gridded)
+    cons = Cons(case["cstep"], case["payload"], series, gridded)
     kw = {"slot_memory_location": None}  # (the default location "temp" is created in the cwd on construction)
     if limited:
         kw = {"slot_memory_location": loc}
